@@ -44,6 +44,7 @@ func runC05(r *Run) {
 	c05LogList(r)
 	c05Ctutil(r)
 	c05Chain(r)
+	c05DebugDump(r)
 
 	// signed-field coverage of the SCT / STH signature inputs (rule set of C04.R3)
 	r.Shared("C05.R7", func() {
@@ -181,7 +182,7 @@ func c05NewVerifier(r *Run) {
 func c05Wrappers(r *Run) {
 	r.Rule("C05.R4")
 	if fn := r.Fn("(ct.SignatureVerifier).VerifySignature"); fn != nil {
-		cs := r.VerdictShape(fn, "SignatureVerifier.VerifySignature", "tls.VerifySignature", nil)
+		cs := r.VerdictShape(fn, "SignatureVerifier.VerifySignature", "tls.VerifySignature", c05NilAfterVerdict(r, fn, "tls.VerifySignature"))
 		r.Check("SignatureVerifier.VerifySignature:delegates", len(cs) >= 1, r.FnPos(fn), "returns tls.VerifySignature's verdict")
 		for _, c := range cs {
 			r.ExpectArg(c, "SignatureVerifier.VerifySignature:key", 0, "p0.PubKey")
@@ -198,7 +199,7 @@ func c05Wrappers(r *Run) {
 			continue
 		}
 		k := short(w.fn)
-		cs := r.VerdictShape(fn, k, "(ct.SignatureVerifier).VerifySignature || tls.VerifySignature", nil)
+		cs := r.VerdictShape(fn, k, "(ct.SignatureVerifier).VerifySignature || tls.VerifySignature", c05NilAfterVerdict(r, fn, "(ct.SignatureVerifier).VerifySignature || tls.VerifySignature"))
 		r.Check(k+":delegates", len(cs) >= 1, r.FnPos(fn), "returns the verdict of the signature check")
 		ser := r.OneCall(fn, k+":serializer", w.ser)
 		if ser != nil {
